@@ -6,6 +6,7 @@ import (
 	"encoding/json"
 	"errors"
 	"fmt"
+	"math"
 	"strings"
 
 	"diagonal.works/b6/geojson"
@@ -85,9 +86,20 @@ func (e Expression) MarshalYAML() (interface{}, error) {
 		case IntExpression:
 			return int(e), nil
 		case FloatExpression:
-			return float64(e), nil
+			// A float with an integral value is written by YAML without a
+			// decimal point, and would be read back as an int: fall through
+			// to the explicit form below.
+			if float64(e) != math.Trunc(float64(e)) {
+				return float64(e), nil
+			}
 		case StringExpression:
-			return string(e), nil
+			// UnmarshalYAML infers the type of a bare string via
+			// ExpressionFromString. Strings that would be read back as a
+			// point, a feature ID or a list of values are written in the
+			// explicit form below instead.
+			if _, ok := ExpressionFromString(string(e)).AnyExpression.(StringExpression); ok {
+				return string(e), nil
+			}
 		case Expressions:
 			return e.String(), nil
 		}
@@ -164,6 +176,11 @@ func ExpressionFromProto(node *pb.NodeProto) (Expression, error) {
 }
 
 func expressionFromProto(node *pb.NodeProto) (Expression, error) {
+	if node == nil {
+		// The request, the function of a call or the body of a lambda is
+		// a message field, and so can be missing.
+		return Expression{}, fmt.Errorf("can't convert expression from proto: missing node")
+	}
 	switch n := node.Node.(type) {
 	case *pb.NodeProto_Symbol:
 		return SymbolExpressionFromProto(node)
@@ -755,7 +772,9 @@ func (g GeoJSONExpression) ToProto() (*pb.NodeProto, error) {
 }
 
 func GeoJSONExpressionFromProto(node *pb.NodeProto) (Expression, error) {
-	panic("Unimplemented")
+	// TODO: Implement. Until then, it's an expression we can't convert,
+	// not a reason to stop the server that was sent it.
+	return Expression{}, errors.New("Can't import GeoJSON from protos")
 }
 
 func (g GeoJSONExpression) Clone() Expression {
